@@ -1,6 +1,316 @@
 (* Lemmas about Model/HttpClient.v *)
 From Hio Require Import Base.Prelude Base.ListFacts Model.HttpClient.
+From Coq Require Import ZifyBool.
 Local Open Scope N_scope.
 
 Lemma run_app s evs evs' : run s (evs ++ evs') = run (run s evs) evs'.
 Proof. unfold run. apply fold_left_app. Qed.
+
+Lemma wire_reqs_app w w' : wire_reqs (w ++ w') = wire_reqs w ++ wire_reqs w'.
+Proof.
+  induction w as [|x w IH]; [reflexivity|]. cbn [List.app wire_reqs].
+  destruct (w_item x); cbn [List.app]; now rewrite IH.
+Qed.
+
+Lemma enqs_app evs evs' : enqs (evs ++ evs') = enqs evs ++ enqs evs'.
+Proof.
+  induction evs as [|e evs IH]; [reflexivity|]. cbn [List.app enqs].
+  destruct e; cbn [List.app]; now rewrite IH.
+Qed.
+
+(* ------------------------------------------------------------------ *)
+(* The bookkeeping invariant.  [all] = tags queued so far, in order.    *)
+Ltac split4 := split; [|split; [|split]].
+
+Definition Inv (all : list N) (s : cstate) : Prop :=
+  map Some all = map origin (responses s) ++ inflight s ++ map Some (queue s)
+  /\ (waited s = false -> redirects s = [])
+  /\ (exists u, map Some (wire_reqs (wire s)) ++ u = map origin (responses s) ++ inflight s
+       /\ (u = [] \/ (sent s = false /\ waited s = true /\ length u = 1%nat)))
+  /\ (sent s = true -> waited s = true).
+
+Lemma inv_init sec rd : Inv [] (init sec rd).
+Proof.
+  unfold Inv, init, inflight. cbn.
+  split; [reflexivity|]. split; [reflexivity|]. split; [|discriminate].
+  exists []. split; [reflexivity | now left].
+Qed.
+
+Lemma inv_enq all s t : Inv all s -> Inv (all ++ [t]) (enq s t).
+Proof.
+  intros (H1 & H2 & H3 & H4). unfold Inv, enq, inflight in *. cbn [queue waited latest responses redirects sent wire].
+  split4; auto.
+  rewrite !map_app, H1. cbn [map]. now rewrite <- !app_assoc.
+Qed.
+
+Lemma inv_pump all s : Inv all s -> Inv all (pump s).
+Proof.
+  intros HI. unfold pump.
+  destruct (waited s) eqn:Hw; [exact HI|].
+  destruct (queue s) as [|t q] eqn:Hq; [exact HI|].
+  destruct HI as (H1 & H2 & (u & H3 & Hu) & H4).
+  assert (Hr := H2 Hw).
+  assert (Hu0 : u = []) by (destruct Hu as [|(_ & X & _)]; [assumption | congruence]).
+  subst u. unfold inflight in *. rewrite Hw in *. cbn [List.app] in *. rewrite !app_nil_r in H3.
+  unfold Inv, inflight. cbn [queue waited latest responses redirects sent wire]. rewrite Hr.
+  split4.
+  - rewrite H1, Hq. reflexivity.
+  - discriminate.
+  - destruct (cut s) eqn:Hc; cbv beta iota.
+    + exists [Some t]. split; [now rewrite H3 | right; split; [reflexivity | split; reflexivity]].
+    + exists []. split; [|now left]. rewrite wire_reqs_app, map_app, H3. cbn [wire_reqs on_wire w_item map].
+      now rewrite app_nil_r.
+  - reflexivity.
+Qed.
+
+Lemma inv_deliver all s st err c :
+  Inv all s -> waited s = true -> sent s = true -> Inv all (deliver s st err c).
+Proof.
+  intros (H1 & H2 & (u & H3 & Hu) & H4) Hw Hs.
+  assert (Hu0 : u = []) by (destruct Hu as [|(X & _)]; [assumption | congruence]). subst u.
+  unfold inflight in *. rewrite Hw in *. rewrite !app_nil_r in H3.
+  unfold Inv, deliver, inflight. cbn [queue waited latest responses redirects sent wire].
+  assert (E : origin {| e_status := st; e_tag := latest s; e_errored := err; e_history := redirects s |}
+              = match redirects s with h :: _ => snd h | [] => latest s end).
+  { unfold origin. cbn [e_history e_tag]. reflexivity. }
+  split4.
+  - rewrite H1, map_app. cbn [map]. rewrite E. now rewrite <- !app_assoc.
+  - reflexivity.
+  - exists []. split; [|now left]. rewrite H3, map_app. cbn [map]. rewrite E. now rewrite !app_nil_r.
+  - discriminate.
+Qed.
+
+Lemma head_snoc (l : list hop) (x : hop) (d : option N) :
+  match l ++ [x] with h :: _ => snd h | [] => d end
+  = match l with h :: _ => snd h | [] => snd x end.
+Proof. destruct l; reflexivity. Qed.
+
+Lemma inv_complete all s r :
+  Inv all s -> waited s = true -> sent s = true -> Inv all (complete s r).
+Proof.
+  intros HI Hw Hs. unfold complete.
+  destruct (redirectable s && is_redirect (rp_status r)); [|now apply inv_deliver].
+  destruct (rp_loc r) as [l|]; [|now apply inv_deliver].
+  destruct HI as (H1 & H2 & (u & H3 & Hu) & H4).
+  assert (Hu0 : u = []) by (destruct Hu as [|(X & _)]; [assumption | congruence]). subst u.
+  unfold inflight in *. rewrite Hw in *. rewrite !app_nil_r in H3.
+  match goal with |- context [if ?c then _ else _] => destruct c end.
+  - unfold Inv, inflight. cbn [queue waited latest responses redirects sent wire].
+    rewrite head_snoc. cbn [snd]. split4.
+    + assumption.
+    + discriminate.
+    + exists []. split; [|now left]. rewrite app_nil_r.
+      destruct (cut s || rp_close r); [assumption|].
+      rewrite wire_reqs_app. cbn [wire_reqs on_wire w_item]. now rewrite app_nil_r.
+    + reflexivity.
+  - match goal with |- context [if ?c then _ else _] => destruct c end.
+    { apply inv_deliver; auto. unfold Inv, inflight. rewrite Hw. split4; auto.
+      exists []. rewrite app_nil_r. split; [assumption | now left]. }
+    unfold Inv, inflight. cbn [queue waited latest responses redirects sent wire].
+    rewrite head_snoc. cbn [snd]. split4.
+    + assumption.
+    + discriminate.
+    + exists []. split; [|now left]. rewrite app_nil_r.
+      rewrite wire_reqs_app. cbn [wire_reqs w_item]. now rewrite app_nil_r.
+    + reflexivity.
+Qed.
+
+Lemma inv_step all s e :
+  Inv all s -> Inv (all ++ match e with Enq t => [t] | Pass _ => [] end) (step s e).
+Proof.
+  intros HI. destruct e as [t|o]; cbn [step].
+  - now apply inv_enq.
+  - rewrite app_nil_r. pose proof (inv_pump all s HI) as HP.
+    destruct o as [r|]; [|assumption].
+    destruct (waited (pump s)) eqn:Hw; [|assumption].
+    destruct (sent (pump s)) eqn:Hs; [|assumption].
+    cbn [andb]. now apply inv_complete.
+Qed.
+
+Lemma inv_run : forall evs all s, Inv all s -> Inv (all ++ enqs evs) (run s evs).
+Proof.
+  induction evs as [|e evs IH]; intros all s HI; cbn [run fold_left enqs].
+  - now rewrite app_nil_r.
+  - apply (inv_step all s e) in HI. apply IH in HI. fold (run (step s e) evs).
+    destruct e; cbn [enqs]; [now rewrite <- app_assoc in HI | now rewrite app_nil_r in HI].
+Qed.
+
+Lemma map_some_inj (a b : list N) : map Some a = map Some b -> a = b.
+Proof.
+  revert b. induction a as [|x a IH]; intros [|y b] H; try discriminate; [reflexivity|].
+  cbn [map] in H. inversion H. f_equal. now apply IH.
+Qed.
+
+Lemma map_some_app_inv (a : list N) (x y : list (option N)) :
+  map Some a = x ++ y -> exists a1 a2, a = a1 ++ a2 /\ x = map Some a1 /\ y = map Some a2.
+Proof.
+  revert a. induction x as [|o x IH]; intros a H.
+  - exists [], a. auto.
+  - destruct a as [|t a]; [discriminate|]. cbn [map List.app] in H. inversion H; subst.
+    destruct (IH a H2) as (a1 & a2 & -> & -> & ->). exists (t :: a1), a2. auto.
+Qed.
+
+(* FIFO, one entry per request, at most one in flight; requests reach the wire
+   in queue order and at most one of them is unanswered. *)
+Theorem fifo sec rd evs :
+  let s := run (init sec rd) evs in
+  map Some (enqs evs) = map origin (responses s) ++ inflight s ++ map Some (queue s)
+  /\ (length (inflight s) <= 1)%nat
+  /\ (exists rest, enqs evs = wire_reqs (wire s) ++ rest)
+  /\ (length (wire_reqs (wire s)) <= length (responses s) + 1)%nat.
+Proof.
+  intros s. destruct (inv_run evs [] (init sec rd) (inv_init sec rd)) as (H1 & H2 & (u & H3 & Hu) & H4).
+  cbn [List.app] in H1. fold s in H1, H2, H3, Hu, H4.
+  split; [exact H1|]. split.
+  { unfold inflight. destruct (waited s); cbn [length]; lia. }
+  split.
+  - rewrite app_assoc in H1. rewrite <- H3 in H1. rewrite <- app_assoc in H1.
+    destruct (map_some_app_inv _ _ _ H1) as (a1 & a2 & E & E1 & _).
+    apply map_some_inj in E1. subst a1. now exists a2.
+  - apply (f_equal (@length _)) in H3. rewrite !app_length, !map_length in H3.
+    unfold inflight in H3. destruct (waited s); cbn [length] in H3; lia.
+Qed.
+
+(* ------------------------------------------------------------------ *)
+(* An https client never leaves https.                                  *)
+Definition InvS (s : cstate) : Prop :=
+  https s = true /\ Forall (fun w => w_https w = true) (wire s).
+
+Lemma invS_pump s : InvS s -> InvS (pump s).
+Proof.
+  intros [H1 H2]. unfold pump. destruct (waited s); [now split|].
+  destruct (queue s); [now split|]. split; cbn [https wire]; [assumption|].
+  destruct (cut s); [assumption|]. apply Forall_app. split; [assumption|].
+  constructor; [exact H1 | constructor].
+Qed.
+
+Lemma invS_complete s r : InvS s -> InvS (complete s r).
+Proof.
+  intros [H1 H2]. unfold complete.
+  assert (D : forall st e c, InvS (deliver s st e c)) by (intros; now split).
+  destruct (redirectable s && is_redirect (rp_status r)); [|apply D].
+  destruct (rp_loc r) as [l|]; [|apply D].
+  match goal with |- context [if ?c then _ else _] => destruct c end.
+  - split; cbn [https wire]; [assumption|].
+    destruct (cut s || rp_close r); [assumption|]. apply Forall_app. split; [assumption|].
+    constructor; [exact H1 | constructor].
+  - destruct (match l_host l with Some _ => l_https l | None => https s end) eqn:E; cbn [negb];
+      [rewrite andb_false_r | rewrite andb_true_r, H1; apply D].
+    split; cbn [https wire]; [reflexivity|]. apply Forall_app. split; [assumption|].
+    constructor; [reflexivity | constructor].
+Qed.
+
+Lemma invS_step s e : InvS s -> InvS (step s e).
+Proof.
+  intros H. destruct e as [t|o]; cbn [step]; [exact H|].
+  apply invS_pump in H. destruct o as [r|]; [|assumption].
+  destruct (waited (pump s) && sent (pump s)); [now apply invS_complete | assumption].
+Qed.
+
+Theorem https_kept rd evs :
+  let s := run (init true rd) evs in
+  https s = true /\ Forall (fun w => w_https w = true) (wire s).
+Proof.
+  cbn zeta. unfold run.
+  assert (G : forall evs s, InvS s -> InvS (fold_left step evs s)).
+  { induction evs0 as [|e evs0 IH]; intros s H; [assumption|]. cbn [fold_left]. apply IH. now apply invS_step. }
+  apply G. split; [reflexivity | constructor].
+Qed.
+
+(* what the refusal does: the 3xx response is delivered, errored, with the history;
+   nothing is transmitted and the connector is kept *)
+Lemma downgrade_refused s r l h :
+  https s = true -> redirectable s = true -> is_redirect (rp_status r) = true ->
+  rp_loc r = Some l -> l_host l = Some h -> l_https l = false ->
+  complete s r = deliver s (rp_status r) true (cut s || rp_close r).
+Proof.
+  intros H1 H2 H3 H4 H5 H6. unfold complete. rewrite H2, H3, H4, H5, H6, H1. cbn [andb negb Bool.eqb].
+  rewrite andb_false_r. reflexivity.
+Qed.
+
+(* ------------------------------------------------------------------ *)
+(* Redirect history.                                                    *)
+Definition tail_none (l : list hop) : Prop :=
+  match l with [] => True | _ :: rest => Forall (fun x => snd x = None) rest end.
+Definition all_redirects (l : list hop) : Prop := Forall (fun h => is_redirect (fst h) = true) l.
+Definition good_entry (e : entry) : Prop :=
+  all_redirects (e_history e) /\ tail_none (e_history e) /\ (e_history e <> [] -> e_tag e = None).
+
+Definition InvH (s : cstate) : Prop :=
+  all_redirects (redirects s) /\ tail_none (redirects s)
+  /\ (redirects s <> [] -> latest s = None)
+  /\ Forall good_entry (responses s).
+
+Lemma invH_deliver s st err c : InvH s -> InvH (deliver s st err c).
+Proof.
+  intros (A & B & C & D). unfold InvH, deliver. cbn [redirects latest responses].
+  split; [constructor|]. split; [exact I|]. split; [congruence|].
+  apply Forall_app. split; [assumption|]. constructor; [|constructor].
+  unfold good_entry. cbn [e_history e_tag]. auto.
+Qed.
+
+Lemma invH_follow (s : cstate) st :
+  InvH s -> is_redirect st = true ->
+  all_redirects (redirects s ++ [(st, latest s)]) /\ tail_none (redirects s ++ [(st, latest s)]).
+Proof.
+  intros (A & B & C & D) H. split.
+  - apply Forall_app. split; [assumption|]. constructor; [exact H | constructor].
+  - destruct (redirects s) as [|x rest] eqn:E; [cbn; constructor|]. cbn [List.app tail_none] in *.
+    apply Forall_app. split; [assumption|]. constructor; [|constructor]. cbn [snd]. apply C. discriminate.
+Qed.
+
+Lemma invH_complete s r : InvH s -> InvH (complete s r).
+Proof.
+  intros H. unfold complete.
+  destruct (redirectable s && is_redirect (rp_status r)) eqn:E; [|now apply invH_deliver].
+  apply andb_true_iff in E as [_ E].
+  destruct (rp_loc r) as [l|]; [|now apply invH_deliver].
+  destruct (invH_follow s (rp_status r) H E) as [F1 F2]. destruct H as (A & B & C & D).
+  match goal with |- context [if ?c then _ else _] => destruct c end.
+  - unfold InvH. cbn [redirects latest responses]. auto.
+  - match goal with |- context [if ?c then _ else _] => destruct c end.
+    + apply invH_deliver. unfold InvH. auto.
+    + unfold InvH. cbn [redirects latest responses]. auto.
+Qed.
+
+Lemma invH_step all s e : Inv all s -> InvH s -> InvH (step s e).
+Proof.
+  intros HI H. destruct e as [t|o]; cbn [step].
+  - exact H.
+  - assert (HP : InvH (pump s)).
+    { unfold pump. destruct (waited s) eqn:Hw; [exact H|]. destruct (queue s); [exact H|].
+      destruct HI as (_ & H2 & _). specialize (H2 Hw). destruct H as (A & B & C & D).
+      unfold InvH. cbn [redirects latest responses]. rewrite H2.
+      split; [constructor|]. split; [exact I|]. split; [congruence | assumption]. }
+    destruct o as [r|]; [|assumption].
+    destruct (waited (pump s) && sent (pump s)); [now apply invH_complete | assumption].
+Qed.
+
+Theorem history_attached sec rd evs :
+  Forall good_entry (responses (run (init sec rd) evs)).
+Proof.
+  assert (G : forall evs all s, Inv all s -> InvH s -> InvH (run s evs)).
+  { induction evs0 as [|e evs0 IH]; intros all s HI H; [assumption|]. cbn [run fold_left].
+    fold (run (step s e) evs0). eapply IH; [eapply inv_step; eassumption | eapply invH_step; eassumption]. }
+  destruct (G evs [] (init sec rd) (inv_init sec rd)) as (_ & _ & _ & D); [|exact D].
+  unfold InvH, init. cbn. split; [constructor|]. split; [exact I|]. split; [congruence | constructor].
+Qed.
+
+(* every followed redirect hop is recorded, in order: completing a reply either
+   extends .redirects by exactly that hop or delivers an entry whose history is
+   exactly the hops so far *)
+Lemma complete_cases s r :
+  (exists err c, complete s r = deliver s (rp_status r) err c)
+  \/ (redirects (complete s r) = redirects s ++ [(rp_status r, latest s)]
+      /\ responses (complete s r) = responses s /\ waited (complete s r) = true
+      /\ is_redirect (rp_status r) = true /\ redirectable s = true).
+Proof.
+  unfold complete.
+  destruct (redirectable s) eqn:R; cbn [andb]; [|left; eauto].
+  destruct (is_redirect (rp_status r)) eqn:E; [|left; eauto].
+  destruct (rp_loc r) as [l|]; [|left; eauto].
+  match goal with |- context [if ?c then _ else _] => destruct c end.
+  - right. cbn [redirects responses waited]. auto.
+  - match goal with |- context [if ?c then _ else _] => destruct c end; [left; eauto|].
+    right. cbn [redirects responses waited]. auto.
+Qed.
